@@ -15,8 +15,10 @@ import (
 	"crypto/tls"
 	"fmt"
 	"io"
+	"math"
 	"net"
 	"net/http"
+	"net/http/httptrace"
 	"strconv"
 	"strings"
 	"sync"
@@ -36,6 +38,14 @@ type c17Req struct {
 	resp      *http.Response
 	err       error
 	cancelled bool
+}
+
+// c17Assign is one decision of the connection pool as reported through the
+// public httptrace.ClientTrace.GotConn hook: attempt number `attempt` (1 = the
+// first, > 1 = a retry by the Transport) of request req was handed to connection
+// conn during harness step `step`.
+type c17Assign struct {
+	req, conn, attempt, step int
 }
 
 func (r *c17Req) finished() bool {
@@ -82,6 +92,7 @@ type c17Conn struct {
 	srvClosed bool // the harness closed it
 	sentSettings bool
 	pingsSeen [][8]byte // PINGs from the client not yet acknowledged
+	notReading bool     // the server has stopped reading: the client's writes block (back-pressure)
 }
 
 type c17cli struct {
@@ -93,6 +104,7 @@ type c17cli struct {
 	reqs  []*c17Req
 	step  int
 	bad   []string // harness-level protocol problems observed in the client's output
+	assigns []c17Assign // pool decisions in the order they were made (guarded by mu)
 }
 
 func c17cliNew(t testing.TB, strict bool) *c17cli {
@@ -150,6 +162,10 @@ func (h *c17cli) request(body string) *c17Req {
 		panic(err)
 	}
 	req.Header.Set("x-req", strconv.Itoa(r.idx))
+	// observe the pool's decisions for this request (public API, no effect on the Transport)
+	req = req.WithContext(httptrace.WithClientTrace(ctx, &httptrace.ClientTrace{
+		GotConn: func(ci httptrace.GotConnInfo) { h.noteAssign(r.idx, ci.Conn) },
+	}))
 	h.reqs = append(h.reqs, r)
 	go func() {
 		defer close(r.done)
@@ -160,6 +176,30 @@ func (h *c17cli) request(body string) *c17Req {
 		}
 	}()
 	return r
+}
+
+func (h *c17cli) noteAssign(req int, nc net.Conn) {
+	h.mu.Lock()
+	defer h.mu.Unlock()
+	a := c17Assign{req: req, conn: -1, attempt: 1, step: h.step}
+	for _, c := range h.conns {
+		if c.cliEnd == nc {
+			a.conn = c.idx
+		}
+	}
+	for _, b := range h.assigns {
+		if b.req == req {
+			a.attempt++
+		}
+	}
+	h.assigns = append(h.assigns, a)
+}
+
+// assignList returns the pool decisions observed so far.
+func (h *c17cli) assignList() []c17Assign {
+	h.mu.Lock()
+	defer h.mu.Unlock()
+	return append([]c17Assign(nil), h.assigns...)
 }
 
 func (h *c17cli) connList() []*c17Conn {
@@ -211,7 +251,9 @@ func (h *c17cli) settle() map[int][]c15Frame {
 			out[c.idx] = fs
 		}
 	}
+	h.mu.Lock()
 	h.step++
+	h.mu.Unlock()
 	return out
 }
 
@@ -313,6 +355,31 @@ func (c *c17Conn) pingAcks() int {
 	return n
 }
 
+// stopReading: the server stops reading from the connection. Nothing the
+// client writes from now on is accepted by the network: its writes block
+// (whoever holds the connection's write path is stuck in Write) until
+// resumeReading.
+func (c *c17Conn) stopReading() {
+	c.notReading = true
+	c.srv.SetReadBufferSize(0)
+}
+
+func (c *c17Conn) resumeReading() {
+	c.notReading = false
+	c.srv.SetReadBufferSize(math.MaxInt)
+}
+
+// writeStuck: the server is not reading and a client goroutine is stuck in a
+// write on this connection, holding the connection's write lock. hdr: that
+// goroutine (or another) also holds the new-request lock, so that further
+// requests handed to the connection queue up on a channel.
+func (c *c17Conn) writeStuck() (stuck, hdr bool) {
+	if !c.notReading || c.cc == nil {
+		return false, false
+	}
+	return c.cc.C17WriteBusy()
+}
+
 func (c *c17Conn) goAway(last uint32, code ErrCode) {
 	c.fr.WriteGoAway(last, code, nil)
 	c.flush()
@@ -325,6 +392,14 @@ func (c *c17Conn) close() {
 
 // finish ends the case: cancel what is pending, hang up everywhere.
 func (h *c17cli) finish() {
+	// let blocked writes drain first: a cancellation needs the connection's
+	// write lock, and synctest cannot wait on a goroutine blocked on a mutex
+	for _, c := range h.connList() {
+		if c.notReading {
+			c.resumeReading()
+		}
+	}
+	synctest.Wait()
 	for _, r := range h.reqs {
 		r.cancel()
 	}
@@ -362,6 +437,13 @@ func (h *c17cli) history() string {
 			} else {
 				fmt.Fprintf(&b, " [%d]%v", f.Step, f)
 			}
+		}
+		b.WriteString(" }")
+	}
+	if as := h.assignList(); len(as) > 0 {
+		b.WriteString(" pool{")
+		for _, a := range as {
+			fmt.Fprintf(&b, " [%d]req%d->conn%d", a.step, a.req, a.conn)
 		}
 		b.WriteString(" }")
 	}
